@@ -549,7 +549,7 @@ func runC08(c *Ctx) {
 			c.Violation("", p, map[string]interface{}{"list_failure_kind": int(kind)})
 		}
 	}
-	c.Rep.Rule = "a node of each kind {SubscribeWithFilter, SubscribeForFilter, CloneWithFilter, CloneForFilter} below a for-filter clone (whose readiness the scenario controls) at depth 2..4 of a clone tree on a real controller: every order of {parent becomes ready, Refilter(equal filter, rebuilt), Refilter(new filter), parent event} up to length 4 (quick: all of length <= 3, a third of length 4) / 6, with a barrier after every operation. After each operation: Ready(), cache when ready, events delivered vs the extracted fs_step model; direct oracles: Ready only with parent ready and (deferred) a filter supplied, cache read once Ready is seen = filtered parent content, no event before Ready; plus: a failed first list never makes the controller, a filtered subscription or a for-filter clone ready. Non-trivial = every order (each is a distinct history)."
+	c.Rep.Rule = "a node of each kind {SubscribeWithFilter, SubscribeForFilter, CloneWithFilter, CloneForFilter} below a for-filter clone (whose readiness the scenario controls) at depth 2..4 of a clone tree on a real controller: every order of {parent becomes ready, Refilter(equal filter, rebuilt), Refilter(new filter), parent event} up to length 4 (quick: all of length <= 3, a third of length 4) / 6, with a barrier after every operation. After each operation: Ready(), cache when ready, events delivered vs the extracted fs_step model; direct oracles: Ready only with parent ready and (deferred) a filter supplied, cache read once Ready is seen = filtered parent content, no event before Ready; plus: a failed first list never makes the controller, a filtered subscription or a for-filter clone ready. Non-trivial = every order (each is a distinct history). Plus the window in which the parent's cache has stopped and its Events() is still open (context cancelled while the controller goroutine is held at a log call): a Refilter(accept-all) there may not produce a Delete (C06); with the controller held at its n-th start-up log call (n=1..6), cancelled, and held again at its next one, a node that says Ready and whose cache can be read holds its filter's view of the server (C06, C08). Plus 200 (1500) filtered subscriptions and filtered clones created back to back on a ready controller while one accepted object is updated continuously (real parallelism, no barriers): no event is received from a node whose Ready() is open, and no Create for the object that was there all along."
 	c.Rep.Stats["runs"] = runs
 	c.Rep.Stats["orders"] = len(seqs)
 }
@@ -938,7 +938,7 @@ func runC06(c *Ctx) {
 		}
 		c.DistinctCase(fmt.Sprint("event-during-refilter", i))
 	}
-	c.Rep.Rule = "random trees mixing all six subscribe/clone forms to depth 3 on a real controller fed by the fake watch; parent histories that move objects in and out of the filters; Refilter (new, back to earlier, equal-rebuilt, non-comparable FN) and closes of sibling subscriptions fired WITHOUT barriers, racing with readiness and in-flight events, under 3 levels of logger-driven perturbation; in a fifth of the runs the watch also replays stretches of old history and isolated stale frames (objects re-created at older versions; the root cache is then the ground truth). At barriers: every ready node's cache = its filter chain applied to the server content (also vs the extracted nested_view), deferred nodes ready iff supplied, every subscription's events since the previous barrier replay (well-formed, strictly newer updates) from its previous cache to its current cache. Plus filtered subscriptions that are used only through Cache() (Events() never read) over 140 accepted changes: caches current, Refilter not blocked. Plus events carrying lower versions than the newest a node has seen (an upstream Refilter re-creating an old object, a relist-synthesised Delete at the old cached version): applied, not skipped. Plus parent events published while a slow Refilter is being applied (after the listing): consumed afterwards, not lost. Non-trivial = scenario with >= 4 node checks."
+	c.Rep.Rule = "random trees mixing all six subscribe/clone forms to depth 3 on a real controller fed by the fake watch; parent histories that move objects in and out of the filters; Refilter (new, back to earlier, equal-rebuilt, non-comparable FN) and closes of sibling subscriptions fired WITHOUT barriers, racing with readiness and in-flight events, under 3 levels of logger-driven perturbation; in a fifth of the runs the watch also replays stretches of old history and isolated stale frames (objects re-created at older versions; the root cache is then the ground truth). At barriers: every ready node's cache = its filter chain applied to the server content (also vs the extracted nested_view), deferred nodes ready iff supplied, every subscription's events since the previous barrier replay (well-formed, strictly newer updates) from its previous cache to its current cache. Plus filtered subscriptions that are used only through Cache() (Events() never read) over 140 accepted changes: caches current, Refilter not blocked. Plus events carrying lower versions than the newest a node has seen (an upstream Refilter re-creating an old object, a relist-synthesised Delete at the old cached version): applied, not skipped. Plus parent events published while a slow Refilter is being applied (after the listing): consumed afterwards, not lost. Non-trivial = scenario with >= 4 node checks. Plus the window in which the parent's cache has stopped and its Events() is still open (context cancelled while the controller goroutine is held at a log call): a Refilter(accept-all) there may not produce a Delete (C06); with the controller held at its n-th start-up log call (n=1..6), cancelled, and held again at its next one, a node that says Ready and whose cache can be read holds its filter's view of the server (C06, C08)."
 	c.Rep.Stats["runs"] = runs
 }
 
